@@ -6,7 +6,7 @@
    signature term under honest material occurring in l is one of those (Dolev-Yao).  The key tag is
    a free field of every key, so each statement holds for every tag assignment (collisions
    included); [nrank] (Go's string order) and the record order are universally quantified. *)
-From Sdns Require Import Common.Base Gen.C01 C01.Model C01.Proofs_sig C01.Proofs_chain C01.Proofs_f9 C01.Proofs_top C01.Proofs_deleg C01.Proofs_pad C01.Proofs_chase C01.Proofs_zone C01.Proofs_descent.
+From Sdns Require Import Common.Base Common.GoList Gen.C01 C01.Model C01.Proofs_sig C01.Proofs_chain C01.Proofs_f9 C01.Proofs_top C01.Proofs_deleg C01.Proofs_pad C01.Proofs_chase C01.Proofs_zone C01.Proofs_descent C01.Proofs_descent_min C01.Proofs_filter.
 Open Scope N_scope.
 
 (* VerifyDS: success means a supported DS of the parent's set is the digest of a key of the child's
@@ -374,7 +374,7 @@ Print Assumptions chased_denial_rests_on_its_own_verdict.
    the referral path and cached with each delegation".  If every DS set in the delegation cache was handed down — from the
    root's empty set through referrals validateDelegation accepted, each coherent, strictly below the zone asked and on the
    path to the name — then after ANY walk over ANY transcript of upstream responses the cache still holds only such sets,
-   and the walk ended in answer()'s / authority()'s verdict over such a set, in a bare upstream rcode without data, or in
+   and the walk ended in answer()'s / authority()'s verdict over such a set, in a bare upstream FAILURE rcode (neither NOERROR nor NXDOMAIN) without data, or in
    an error.  (An empty cache is sound: dc_sound_nil; so this covers every history of walks on one resolver.) *)
 Theorem descent_keeps_handed_down_ds : forall E q t cd dc resps,
   dc_sound E q cd dc ->
@@ -404,6 +404,85 @@ Theorem empty_ds_only_from_validate_delegation : forall E q cd zone,
 Proof. exact empty_ds_only_from_validate_delegation_lemma. Qed.
 Print Assumptions empty_ds_only_from_validate_delegation.
 
+(* finding bare-denial-unvalidated (fixed by 199ba21).  authority() refuses a response with an empty authority section whenever the zone
+   is_zone_secure and no insecure delegation below it is proven (any rcode, any answer section, CD=0, an anchor present) ... *)
+Theorem bare_denial_refused_by_authority : forall E q t resp pds zone,
+  m_ns resp = [] -> m_qtype resp = t -> m_qname resp = q ->
+  (e_dnssec E = true -> e_anchors E <> []) ->
+  is_zone_secure E q pds zone = true -> proven_insecure_delegation E zone q pds = false ->
+  validate_negative E q t false resp pds zone = Fail ENoSignatures.
+Proof. exact bare_denial_refused_by_authority_lemma. Qed.
+Print Assumptions bare_denial_refused_by_authority.
+
+(* ... and the walk asks it (since 199ba21): such a response fails the walk wherever it arrives *)
+Theorem bare_denial_fails_closed : forall E q t zone pds dc resp rest,
+  m_ans resp = [] -> m_ns resp = [] -> (m_rcode resp = 0 \/ m_rcode resp = RC_NXDOMAIN) ->
+  m_qtype resp = t -> m_qname resp = q ->
+  (e_dnssec E = true -> e_anchors E <> []) ->
+  is_zone_secure E q pds (Some zone) = true -> proven_insecure_delegation E (Some zone) q pds = false ->
+  dr_out (descend E q t false zone pds dc (resp :: rest)) = Fail ENoSignatures.
+Proof. exact bare_denial_fails_closed_lemma. Qed.
+Print Assumptions bare_denial_fails_closed.
+
+(* "missing its denial proof -> SERVFAIL": every NOERROR / NXDOMAIN reply of a walk — data, NODATA or name error — is answer()'s
+   or authority()'s verdict for a zone on the path to q with a DS set handed down to that zone (what is handed back without
+   a verdict is an upstream failure rcode with empty sections).  Was `descent_denial_is_validated_refuted` before 199ba21. *)
+Theorem descent_denial_is_validated : forall E q t cd dc resps m,
+  dc_sound E q cd dc ->
+  dr_out (resolve_from_cache E q t cd dc resps) = Accept m -> (m_rcode m = 0 \/ m_rcode m = RC_NXDOMAIN) ->
+  exists zone pds resp, handed_down E q cd zone pds /\ in_zone q zone = true /\
+    (validate_answer E q t cd resp pds (Some zone) = Accept m \/
+     validate_negative E q t cd resp pds (Some zone) = Accept m).
+Proof. exact descent_denial_is_validated_lemma. Qed.
+Print Assumptions descent_denial_is_validated.
+
+(* the descent with QNAME minimisation (RFC 7816; Model.descend_m = resolve / processAuthoritySection / processDelegation with
+   their `minimized` branches, Resolver.minimize, the level bookkeeping, the restart without minimisation).
+   With minimisation off for the walk — the nomin argument internal callers pass — it IS the wave-6 model, for every transcript,
+   cache, cfg.QnameMinLevel and RFC 8020 oracle: everything proved about [descend] / [resolve_from_cache] holds for it *)
+Theorem descent_nomin_is_descend : forall E aggr qmin q t cd dc resps,
+  resolve_from_cache_m E aggr qmin q t cd true dc resps = resolve_from_cache E q t cd dc resps.
+Proof. exact descent_nomin_is_descend_lemma. Qed.
+Print Assumptions descent_nomin_is_descend.
+
+(* with minimisation on, for ANY transcript of upstream responses, any level setting, any oracle: a sound delegation cache stays
+   sound, and the walk ends in answer()'s verdict about the name, in authority()'s verdict about the name or about the SUFFIX of
+   it that was actually asked, in the RFC 8020 cut (below), in a bare upstream FAILURE rcode without data, or in an error *)
+Theorem descent_min_keeps_handed_down_ds : forall E aggr qmin q t cd nomin dc resps,
+  dc_sound E q cd dc ->
+  dc_sound E q cd (dr_cache (resolve_from_cache_m E aggr qmin q t cd nomin dc resps)) /\
+  final_verdict_m E q t cd (dr_out (resolve_from_cache_m E aggr qmin q t cd nomin dc resps)).
+Proof. exact descent_min_keeps_handed_down_ds_lemma. Qed.
+Print Assumptions descent_min_keeps_handed_down_ds.
+
+(* AD on the reply of a minimised walk is answer()'s own AD about the name, authority()'s own AD about the name or a suffix of it,
+   or — the RFC 8020 cut, NXDOMAIN for the whole name on the strength of a name error for an ancestor — the AD of authority()'s
+   verdict on an NXDOMAIN response about a suffix of the name: never a verdict nobody computed, never one about a name off the
+   path, always with a DS set handed down to a zone at or above the name *)
+Theorem descent_min_ad_rests_on_verdict : forall E aggr qmin q t cd nomin dc resps m,
+  dc_sound E q cd dc ->
+  dr_out (resolve_from_cache_m E aggr qmin q t cd nomin dc resps) = Accept m -> m_ad m = true ->
+  exists zone pds resp mq, handed_down E q cd zone pds /\ in_zone q zone = true /\ in_zone q mq = true /\
+    (validate_answer E q t cd resp pds (Some zone) = Accept m \/
+     validate_negative E mq t cd resp pds (Some zone) = Accept m \/
+     (exists r, m_rcode resp = RC_NXDOMAIN /\ validate_negative E mq t cd resp pds (Some zone) = Accept r /\
+                m_ad r = true /\ m = requestion r q)).
+Proof. exact descent_min_ad_rests_on_verdict_lemma. Qed.
+Print Assumptions descent_min_ad_rests_on_verdict.
+
+(* "missing its denial proof -> SERVFAIL" for minimised walks (since 199ba21): every NOERROR / NXDOMAIN reply is answer()'s verdict
+   about the name, authority()'s verdict about the name or a suffix of it, or the RFC 8020 cut on top of an authenticated one *)
+Theorem descent_min_denial_is_validated : forall E aggr qmin q t cd nomin dc resps m,
+  dc_sound E q cd dc ->
+  dr_out (resolve_from_cache_m E aggr qmin q t cd nomin dc resps) = Accept m -> (m_rcode m = 0 \/ m_rcode m = RC_NXDOMAIN) ->
+  exists zone pds resp mq, handed_down E q cd zone pds /\ in_zone q zone = true /\ in_zone q mq = true /\
+    (validate_answer E q t cd resp pds (Some zone) = Accept m \/
+     validate_negative E mq t cd resp pds (Some zone) = Accept m \/
+     (exists r, m_rcode resp = RC_NXDOMAIN /\ validate_negative E mq t cd resp pds (Some zone) = Accept r /\
+                m_ad r = true /\ m = requestion r q)).
+Proof. exact descent_min_denial_is_validated_lemma. Qed.
+Print Assumptions descent_min_denial_is_validated.
+
 (* a validating reader meets only bits filed for CD=0 requests, and they are the resolver's verdict *)
 Theorem filed_for_validating_readers : forall v cd a p1, file_verdict v cd = (Some a, p1) -> cd = false /\ a = v.
 Proof. exact file_verdict_cd0_lemma. Qed.
@@ -417,6 +496,24 @@ Theorem in_zone_is_NameInZone : forall (lbl : N -> list N),
   forall fuel n z, (1 <= fuel)%nat -> go_NameInZone fuel (pres lbl n) (pres lbl z) = Some (in_zone n z).
 Proof. exact gen_NameInZone_lemma. Qed.
 Print Assumptions in_zone_is_NameInZone.
+(* the zone filter in front of the wildcard next-closer check and of the NSEC / NSEC3 denial checks: the model's [filter_zone] IS
+   the code's dnsutil.FilterRRsToZone — machine-translated with its range loop, dns.RR as a sum type, dns.CanonicalName and
+   NameInZone — on the presentation of names whose labels are non-empty and free of '.', backslash and upper-case letters, for
+   every list of records, every zone, any fuel >= 1, and EVERY representation [emb] of the model's records as dns.RR values that
+   agrees on the owner name, on "the dynamic type is *dns.NSEC" and on the NSEC's next name *)
+Theorem filter_zone_is_FilterRRsToZone : forall (lbl : N -> list N),
+  (forall l, lbl l <> []) -> (forall l c, In c (lbl l) -> c <> 46 /\ c <> 92) -> (forall a b, lbl a = lbl b -> a = b) ->
+  (forall l c, In c (lbl l) -> c < 65 \/ 90 < c) ->
+  forall emb : rr -> I_RR,
+  (forall r, T_RR_Header_Name (I_RR_Header (emb r)) = pres lbl (r_owner r)) ->
+  (forall r, match r_rd r with
+             | RdNsec nx => exists v, emb r = I_RR_of_NSEC v /\ T_NSEC_NextDomain v = pres lbl nx
+             | _ => forall v, emb r <> I_RR_of_NSEC v end) ->
+  forall fuel l z, (1 <= fuel)%nat ->
+  go_FilterRRsToZone fuel (map emb l) (pres lbl z) = Some (map emb (filter_zone l z)).
+Proof. exact gen_FilterRRsToZone_lemma. Qed.
+Print Assumptions filter_zone_is_FilterRRsToZone.
+
 Example in_zone_tie_instance :   (* labels "a"+l: c.b.a. is below b.a., cb.a. is not below b.a. *)
   let lbl := fun l : N => [97 + l] in
   go_NameInZone 1 (pres lbl [2; 1; 0]) (pres lbl [1; 0]) = Some true /\
